@@ -2000,13 +2000,47 @@ CODEC_LIST_OUTSIDE = [
 ]
 
 
+LIST_DECODER_OBSTACLES = [
+    (r"\bfn\s+\w+\s*<\s*T\s*:\s*BFieldCodec\s*>",
+     "generic over `T: BFieldCodec` (the subset has no type parameters: `Vec<T>` has no Lean type here)"),
+    (r"\bT::static_length\s*\(\s*\)", "`T::static_length()` is a call through the trait bound (would have to become a parameter `Option Nat`)"),
+    (r"\bT::decode\s*\(", "`T::decode(..)` is a call through the trait bound (would have to become a parameter `List Nat -> Except String a`)"),
+    (r"\blet\s+mut\s+\w+\s*=\s*vec!\[\s*\]\s*;", "`let mut vec = vec![]`: the element type is only determined by a later `push` (every value must have a determined type)"),
+    (r"\blet\s+mut\s+\w+\s*=\s*[0-9_]+\s*;", "`let mut sequence_index = 0`: integer literal whose type is only determined by later uses"),
+    (r"\bfor\b[^{]*\{(?:[^{}]|\{[^{}]*\})*\?\s*;", "`for` loop whose body exits early through `?` / `return Err(..)` (only straight-line loop bodies are in the subset)"),
+    (r"map_err\(\s*\|\s*e\s*\|\s*e\.into\(\)\s*\)", "`.map_err(|e| e.into())?`: the closure uses its argument (`T::Error: Into<Box<dyn Error>>`, then `#[from]`); only `|_| Variant` closures are in the subset"),
+    (r"\*\s*T::decode", "`*T::decode(..)`: dereference of the returned `Box<T>`"),
+]
+
+
+def list_decoder_refusals(status, read_src):
+    """the two list decoders are attempted like every other function (first obstacle reported by the translator itself);
+    in addition every construct of their *current* text that is outside the subset is listed, so the record says precisely
+    why they are refused.  Nothing is emitted for them."""
+    run_outside(status, read_src, CODEC_LIST_OUTSIDE)
+    cod = read_src(COD_REL) or ""
+    for lname, _rel, fn, _a, _o, _s in CODEC_LIST_OUTSIDE:
+        try:
+            params_text, ret_text, body = find_fn(cod, fn, None)
+            m = re.search(r"\bfn\s+" + re.escape(fn) + r"\b[^{]*", cod)
+            text = (m.group(0) if m else "") + "{" + body + "}"
+        except Exception as ex:
+            status.setdefault("outside_subset", {})[lname] = f"conv: function not found ({ex})"
+            continue
+        found = [why for rx, why in LIST_DECODER_OBSTACLES if re.search(rx, text, flags=re.S)]
+        first = status.get("outside_subset", {}).get(lname, "refused")
+        if first.startswith("translatable now"):
+            continue
+        status["outside_subset"][lname] = first + " | constructs outside the subset: " + "; ".join(found)
+
+
 def run_p03(status, changed, read_src):
     mt = merkle_setup(read_src)
     texts = []
     for spec in merkle_specs(mt):
         translate_one(spec, status, texts)
     emit_file(changed, "MerkleIndex", MT_REL, ["TF.Gen.Consts", "TF.Model.RustStdConv"], texts)
-    run_outside(status, read_src, CODEC_LIST_OUTSIDE)
+    list_decoder_refusals(status, read_src)
 # END P03
 
 
